@@ -148,6 +148,18 @@ def diamond (cx : KCtx) (srcs : List Source) (s : Source) (g1 g2 : String) : Boo
     (kget s.kerning (some g1) (some G2)).isNone && (kget s.kerning (some G1) (some g2)).isSome
   | _, _ => false
 
+/-! ### sources that do not carry the same groups -/
+
+/-- a master's OWN view (`own`: looked up in that master's groups.plist) of a glyph's first-side group against the family's view
+    (`fam`: looked up in the classes `getKerningGroups` collects from ALL sources): the same group, or the master does not define
+    the group - and then none of its kerning keys names it ("a pair, with its groups, present in one master only") -/
+def ownGroupOK1 (K : List (String × String × Q)) (own fam : Option String) : Prop :=
+  own = fam ∨ (own = none ∧ ∀ n, fam = some n → ∀ e ∈ K, e.1 ≠ n)
+
+/-- the same for the second side -/
+def ownGroupOK2 (K : List (String × String × Q)) (own fam : Option String) : Prop :=
+  own = fam ∨ (own = none ∧ ∀ n, fam = some n → ∀ e ∈ K, e.2.1 ≠ n)
+
 /-! ### end to end, on an instantiated font -/
 
 structure MasterIn where
